@@ -4,9 +4,12 @@
    coordinate variable (else arange), errors raised there in the order the dimensions are
    named; (2) per variable, the variable's axes are visited in REVERSE order and every axis
    whose dimension is named gets the named reducer (method(axis, keepdims=True)) or
-   numpy.apply_along_axis; (3) the result is assigned into a variable created with the
-   INPUT variable's dtype (copyVariable(..., withdata=False)), i.e. integer variables
-   truncate toward zero.  No proofs in this file. *)
+   numpy.apply_along_axis called with the opts dictionary (the documented dict(func1d=f, ...keywords) form is the
+   callable f with its keywords bound: it is the same fdesc here); (3) the result is assigned
+   into a variable created with the RESULT's dtype (copyVariable(..., dtype=newvals.dtype,
+   withdata=False)), so no value is altered by the store.
+   Describes the code after fixes C03-apply-dict-form and C03-apply-result-dtype.
+   No proofs in this file. *)
 From PNC Require Import Base.Util Base.NdApply.
 Require Import QArith Qabs.
 Local Open Scope Q_scope.
@@ -24,7 +27,6 @@ Inductive fdesc :=
 | FDiff                                            (* numpy.diff *)
 | FSub (step : nat)                                (* lambda x: x[::step], step >= 1 *)
 | FConv (mode : nat) (ker : list Q)                (* lambda x: numpy.convolve(x, ker, mode); 0 full 1 same 2 valid *)
-| BadDict                                          (* the documented dict(func1d=...) form *)
 | BadNoKeepdims                                    (* a method without keepdims, e.g. 'cumsum' *)
 | BadNoAttr.                                       (* no such ndarray method, e.g. 'ptp', 'median' *)
 
@@ -95,11 +97,7 @@ Definition run (fd : fdesc) : list cell -> list cell :=
   | _ => fun l => l
   end.
 
-(* dtype: integer variables store the truncation toward zero (C cast of a double) *)
-Definition qtrunc (q : Q) : Q := inject_Z (Z.quot (Qnum q) (Zpos (Qden q))).
-Definition cast (isint : bool) (c : cell) : cell := if isint then option_map qtrunc c else c.
-
-Record var := Var { vname : nat; vint : bool; vdims : list nat; vdat : farr cell }.
+Record var := Var { vname : nat; vdims : list nat; vdat : farr cell }.
 Record file := File { fdims : list (nat * nat); fvars : list var }.
 Definition dimfuncs := list (nat * fdesc).
 
@@ -122,7 +120,6 @@ Definition coord_lane (f : file) (d n : nat) : list cell :=
 
 Definition newlen (fd : fdesc) (l : list cell) : res nat :=
   match fd with
-  | BadDict => Err TypeError            (* df(dvar[:]) : 'dict' object is not callable *)
   | BadNoKeepdims => Err TypeError
   | BadNoAttr => Err AttributeError
   | RSum | RProd | RMin | RMax | RMean => Ok 1%nat
@@ -168,10 +165,7 @@ Fixpoint target_shape (nd : list (nat * nat)) (ds : list nat) : option (list nat
               end
   end.
 
-Definition map_cells (g : cell -> cell) (a : farr cell) : farr cell :=
-  FA (sh a) (fun i => g (at_ a i)).
-
-(* newvaro = copyVariable(varo, withdata=False); newvaro[...] = newvals
+(* newvaro = copyVariable(varo, dtype=newvals.dtype, withdata=False); newvaro[...] = newvals
    (equal shapes only; numpy broadcasting of a length-1 axis is not modelled: it cannot
    arise for well-formed files and length-uniform functions) *)
 Definition out_var (dfs : dimfuncs) (nd : list (nat * nat)) (v : var) : res var :=
@@ -180,7 +174,7 @@ Definition out_var (dfs : dimfuncs) (nd : list (nat * nat)) (v : var) : res var 
   | None => Err KeyError
   | Some tgt =>
       if list_eqb Nat.eqb (sh nv) tgt
-      then Ok (Var (vname v) (vint v) (vdims v) (map_cells (cast (vint v)) nv))
+      then Ok (Var (vname v) (vdims v) nv)
       else Err ValueError
   end.
 
@@ -251,11 +245,6 @@ Definition spec_var_ok (dfs : dimfuncs) (v : var) (oshape : list nat) (ocells : 
                      list_eqb Nat.eqb (sh r) oshape && cells_close (to_flat r) ocells)
           (perms (named_axes dfs v)).
 
-(* known-defect region 1: an integer-typed variable has a dimension reduced with 'mean' *)
-Definition is_mean (fd : fdesc) : bool := match fd with RMean => true | _ => false end.
-Definition int_mean_var (dfs : dimfuncs) (v : var) : bool :=
-  vint v && existsb (fun d => match lookup d dfs with Some fd => is_mean fd | None => false end) (vdims v).
-
 (* well-formed file (the stated domain) *)
 Definition wf_var (f : file) (v : var) : bool :=
   match target_shape (fdims f) (vdims v) with
@@ -266,7 +255,7 @@ Definition wf_file (f : file) : bool :=
   forallb (wf_var f) (fvars f) && forallb (fun dn => (1 <=? snd dn)%nat) (fdims f).
 
 Definition good (fd : fdesc) : bool :=
-  match fd with BadDict | BadNoKeepdims | BadNoAttr => false | FSub O => false | _ => true end.
+  match fd with BadNoKeepdims | BadNoAttr => false | FSub O => false | _ => true end.
 
 (* the property for a whole result, positionally (the code keeps the variable order) *)
 Fixpoint spec_vars_ok (dfs : dimfuncs) (vs vs' : list var) : bool :=
